@@ -1047,6 +1047,15 @@ func (vc *VC) havocMods(st *State, ms modSet) {
 	}
 	if ms.all {
 		vc.havocAllHeap(st)
+		// havocAllHeap keeps ghost and closure-cell components: those the body changed (through a contract's modifies
+		// clause, or by assignment) are arbitrary at the loop head as well
+		for _, comp := range sortedKeys(ms.comps) {
+			if strings.HasPrefix(comp, "ghost:") || strings.HasPrefix(comp, "local:") {
+				n := vc.fresh("H_"+comp, vc.compSort[comp])
+				st.heap[comp] = n
+				vc.heapSymWF(n, comp, vc.compSort[comp], st.alloc)
+			}
+		}
 	} else {
 		for _, comp := range sortedKeys(ms.comps) {
 			n := vc.fresh("H_"+comp, vc.compSort[comp])
